@@ -140,6 +140,61 @@ fn c01(ctx: &mut Ctx) {
             counts(ctx, &c);
             ctx.rep.case(&c.desc(), Some(format!("ipa/{}/{}/{}/{}", c.s, npoly, bounds, hiding)));
         }
+        // mixed hiding inside one opening: an earlier polynomial hiding and the last one not, and the
+        // reverse (`open` in list order; `batch_open` in label order = list order here)
+        let patterns: &[&[bool]] = &[&[true, false], &[false, true], &[true, true, false], &[false, false, true], &[true, false, false], &[false, true, false], &[true, false, true]];
+        for (pi, pat) in patterns.iter().enumerate() {
+            if !ctx.thorough && (pi + req) % 2 == 1 && pi >= 2 {
+                continue;
+            }
+            let id = format!("C01/ipa-model/mixed-hiding/{}/{}", req, pat.iter().map(|b| if *b { 'H' } else { 'N' }).collect::<String>());
+            if !ctx.selected(&id) {
+                continue;
+            }
+            let mut rng = rng_for(ctx.seed, "C01/ipa-model/mixed-hiding", (req * 16 + pi) as u64);
+            let c = match guarded(|| gen_case_pattern(&mut rng, req, pat, pi % 2 == 0)) {
+                Ok(Ok(c)) => c,
+                Ok(Err(e)) | Err(e) => {
+                    ctx.rep.expect_fail(&id, "ipa/in-domain-setup-refused", &format!("trim/commit refused an in-domain request: {}", e), format!("# scheme: ipa\n# case: {}\n# seed: {}\n", id, ctx.seed));
+                    continue;
+                }
+            };
+            ask_trim_commit(ctx, &id, &c);
+            let cs = match scalars_or_fail(ctx, &id, &c) { Some(x) => x, None => continue };
+            let all: Vec<usize> = (0..c.polys.len()).collect();
+            let z = Fr::rand(&mut rng);
+            if let Some(o) = open_or_fail(ctx, &mut rng, &id, &c, &cs, &all, z) {
+                if o.proof.hiding_comm.is_none() || o.proof.rand.is_none() {
+                    ctx.rep.expect_fail(&id, "ipa/hiding-dropped", "a hiding polynomial was opened without hiding commitment / combined randomness", c.replay(&id, ctx.seed, "mixed hiding"));
+                }
+                let out = check_scalar(ctx, &id, &vks(&c), &c.vk, &cs, o.z, &o.values, &o.ps);
+                if out != Outcome3::Accept {
+                    ctx.rep.expect_fail(&id, "ipa/honest-rejected", &format!("honest proof with mixed hiding not accepted: {:?}", out), c.replay(&id, ctx.seed, "check(honest, mixed hiding)"));
+                }
+            }
+            // the same through batch_open / batch_check: all polynomials at one point label, plus a second label
+            let mut qs = QuerySet::new();
+            let mut ev = Evaluations::new();
+            let (za, zb) = (Fr::rand(&mut rng), Fr::rand(&mut rng));
+            for p in &c.polys {
+                qs.insert((p.label().clone(), ("a".to_string(), za)));
+                ev.insert((p.label().clone(), za), p.evaluate(&za));
+            }
+            let last = c.polys.last().unwrap();
+            qs.insert((last.label().clone(), ("b".to_string(), zb)));
+            ev.insert((last.label().clone(), zb), last.evaluate(&zb));
+            match batch_open(ctx, &mut rng, &id, &c, &cs, &qs) {
+                Ok(b) => {
+                    let out = batch_check_scalar(ctx, &mut rng, &id, &vks(&c), &c.vk, &cs, &qs, &ev, &b.ps);
+                    if out != Outcome3::Accept {
+                        ctx.rep.expect_fail(&id, "ipa/honest-batch-rejected", &format!("honest batch with mixed hiding not accepted: {:?}", out), c.replay(&id, ctx.seed, "batch_check(honest, mixed hiding)"));
+                    }
+                }
+                Err(e) => ctx.rep.expect_fail(&id, "ipa/honest-open-refused", &format!("batch_open: {}", e), c.replay(&id, ctx.seed, "batch_open(honest, mixed hiding)")),
+            }
+            ctx.rep.count("ipa/mixed-hiding");
+            ctx.rep.case(&c.desc(), Some(format!("ipa/mixed-hiding/{}/{}", c.s, pi)));
+        }
         // every degree 0..=s (and the zero polynomial), one polynomial, with and without bound
         let s = (req + 1).next_power_of_two() - 1;
         if req == s {
@@ -198,6 +253,7 @@ pub enum M {
     ShiftedAdd,
     ShiftedSwap,
     BoundRelabel,
+    BoundRelabelAbove,
     BoundDrop,
     L,
     R,
@@ -214,7 +270,7 @@ pub enum M {
     VkKey,
 }
 pub const STATEMENT: &[M] = &[M::Value, M::Point, M::Comm, M::CommOtherPoly];
-pub const BOUNDS: &[M] = &[M::Shifted, M::ShiftedDrop, M::ShiftedAdd, M::ShiftedSwap, M::BoundRelabel, M::BoundDrop];
+pub const BOUNDS: &[M] = &[M::Shifted, M::ShiftedDrop, M::ShiftedAdd, M::ShiftedSwap, M::BoundRelabel, M::BoundRelabelAbove, M::BoundDrop];
 pub const PROOF: &[M] = &[M::L, M::R, M::Fck, M::C, M::Hc, M::Rand, M::HidingToggle];
 pub const SHAPE: &[M] = &[M::RoundsRemove, M::RoundsAdd, M::LenMismatch];
 pub const KEY: &[M] = &[M::VkH, M::VkS, M::VkKey];
@@ -290,6 +346,12 @@ pub fn mutate(rng: &mut Rng, c: &Case, cs0: &[CommS], o: &Opened, m: M, false_va
             x.cs[i].bound = Some(d2);
             // accepted iff xi' * v * (z^(s-d') - z^(s-d)) * h' = 0
             x.must = !x.vs[i].is_zero() && x.z.pow([(c.s - d2) as u64]) != x.z.pow([(c.s - d) as u64]);
+        }
+        M::BoundRelabelAbove => {
+            // a label above the supported degree: never admissible, must be refused
+            let i = *bounded.first()?;
+            x.cs[i].bound = Some(c.s + range(rng, 1, 3));
+            x.must = true;
         }
         M::BoundDrop => {
             let i = *bounded.first()?;
@@ -537,6 +599,57 @@ fn d7(ctx: &mut Ctx, prop: &str) {
             ctx.rep.case(&format!("{} d7 small={} big={} check={:?} batch={:?}", c.desc(), small, big, out, outb), Some(format!("ipa/d7/{}/{}/{}", small, big, hid)));
         }
     }
+    // the cross-trim proof as ONE of the two point labels of a batch (the other label has a normal
+    // proof), on one continuous sponge stream: `batch_check` must refuse exactly like `check`
+    for (i, &(small, big)) in pairs.iter().enumerate() {
+        for pos in 0..2usize {
+            let hid = (i + pos) % 2 == 1;
+            let id = format!("{}/ipa-model/d7-batch/{}-{}-{}-{}", prop, small, big, pos, hid as u8);
+            if !ctx.selected(&id) {
+                continue;
+            }
+            let mut rng = rng_for(ctx.seed, &format!("{}/ipa-model/d7-batch", prop), (i * 4 + pos * 2 + hid as usize) as u64);
+            let trap = Trap::random(&mut rng, big + 1);
+            let pp = trap.params();
+            let (ck_big, vk_big) = PC::trim(&pp, big, 0, None).unwrap();
+            let (ck_small, _) = PC::trim(&pp, small, 0, None).unwrap();
+            let npoly = range(&mut rng, 1, 2);
+            let polys: Vec<LP> = (0..npoly)
+                .map(|j| LabeledPolynomial::new(format!("p{}", j), UniPoly::rand(range(&mut rng, 0, small), &mut rng), None, if hid && j == 0 { Some(1) } else { None }))
+                .collect();
+            let commit_draws = replay_fr(&rng, 2 * npoly);
+            let (comms, rands) = PC::commit(&ck_big, &polys, Some(&mut rng)).unwrap();
+            let c = Case { trap: trap.clone(), req: big, s: big, ck: ck_big, vk: vk_big, polys, kinds: vec!["dense"; npoly], comms, rands, commit_draws };
+            let cs = match scalars_or_fail(ctx, &id, &c) { Some(x) => x, None => continue };
+            let mut qs = QuerySet::new();
+            let mut ev = Evaluations::new();
+            for (l, pt) in [("pt0", Fr::rand(&mut rng)), ("pt1", Fr::rand(&mut rng))] {
+                for (j, p) in c.polys.iter().enumerate() {
+                    if j == 0 || coin(&mut rng) {
+                        qs.insert((p.label().clone(), (l.to_string(), pt)));
+                        ev.insert((p.label().clone(), pt), p.evaluate(&pt));
+                    }
+                }
+            }
+            let ps = match batch_open_cross_trim(&mut rng, &c, &cs, &qs, &ck_small, pos) {
+                Ok(ps) => ps,
+                Err(e) => {
+                    ctx.rep.expect_fail(&id, "ipa/honest-open-refused", &format!("cross-trim batch opening: {}", e), c.replay(&id, ctx.seed, "d7-batch"));
+                    continue;
+                }
+            };
+            let ind = individual_checks(&c.vk, &cs, &qs, &ev, &ps);
+            let out = batch_check_scalar(ctx, &mut rng, &id, &vks(&c), &c.vk, &cs, &qs, &ev, &ps);
+            if out == Outcome3::Accept {
+                ctx.rep.expect_fail(&id, "ipa/short-proof-accepted/batch_check", "batch_check accepted a batch containing a proof with too few rounds", c.replay(&id, ctx.seed, &format!("d7-batch: point label {} opened with the key trimmed to {}", pos, small)));
+            }
+            if out != ind {
+                ctx.rep.expect_fail(&id, "ipa/batch-differs-from-individual/cross-trim", &format!("batch_check: {:?}, individual checks: {:?}", out, ind), c.replay(&id, ctx.seed, "d7-batch"));
+            }
+            ctx.rep.count("ipa/d7-batch");
+            ctx.rep.case(&format!("{} d7-batch small={} big={} pos={} batch={:?} individual={:?}", c.desc(), small, big, pos, out, ind), Some(format!("ipa/d7-batch/{}/{}/{}/{}", small, big, pos, hid)));
+        }
+    }
     flush(ctx, &format!("{}-ipa-d7", prop));
 }
 
@@ -675,6 +788,73 @@ fn batch_runs(ctx: &mut Ctx, prop: &str, per_degree: usize, shapes: bool) {
                 ctx.rep.count(if pair.is_some() { "ipa/batch-cancel-same-point" } else { "ipa/batch-cancel-across-points" });
                 ctx.rep.case(&format!("{} batch cancel out={:?}", c.desc(), out), Some(format!("ipa-batch/{}/{}/cancel{}", c.s, npoly, pair.is_some())));
             }
+            // plain (+d, -d) cancelling pairs on every ordered pair of claims (small batches) or on every
+            // ordered pair of query points (first claim of each point label)
+            {
+                let groups = crate::generic::group(&qs);
+                let mut pairs: Vec<(usize, usize)> = vec![];
+                if keys.len() <= 4 {
+                    for a in 0..keys.len() {
+                        for bb in 0..keys.len() {
+                            if a != bb {
+                                pairs.push((a, bb));
+                            }
+                        }
+                    }
+                } else {
+                    let firsts: Vec<usize> = groups.iter().filter_map(|(_, pt, labels)| keys.iter().position(|k| k.1 == *pt && labels.contains(&k.0))).collect();
+                    for &a in &firsts {
+                        for &bb in &firsts {
+                            if a != bb {
+                                pairs.push((a, bb));
+                            }
+                        }
+                    }
+                }
+                for (a, bb) in pairs {
+                    let id = format!("{}/pair@{},{}", id0, a, bb);
+                    let d = rand_nonzero(&mut rng);
+                    let mut ev2 = ev.clone();
+                    *ev2.get_mut(&keys[a]).unwrap() += d;
+                    *ev2.get_mut(&keys[bb]).unwrap() -= d;
+                    let out = batch_verdict(ctx, &mut rng, &id, &c, &cs, &qs, &ev2, &b.ps, true, "cancelling-pair");
+                    ctx.rep.count("ipa/batch-cancel-pair");
+                    ctx.rep.case(&format!("{} batch pair=({},{}) out={:?}", c.desc(), a, bb, out), Some(format!("ipa-batch/{}/{}/pair/{}", c.s, npoly, (keys[a].1 == keys[bb].1))));
+                }
+                // errors that cancel across two query points *under the verifier's own challenge
+                // weights*: the combined values of two point labels move by +D and -D
+                let mut k0 = 0usize;
+                let mut per_group: Vec<Option<((String, Fr), Fr)>> = vec![];
+                for (_, pt, labels) in &groups {
+                    let mut pick = None;
+                    for (j, l) in labels.iter().enumerate() {
+                        let p = c.polys.iter().find(|p| p.label() == l).unwrap();
+                        if let Some(x) = b.xis.get(k0 + 2 * j) {
+                            if p.degree_bound().is_none() && pick.is_none() && !x.is_zero() {
+                                pick = Some(((l.clone(), *pt), *x));
+                            }
+                        }
+                    }
+                    per_group.push(pick);
+                    k0 += 1 + 2 * labels.len();
+                }
+                let avail: Vec<usize> = (0..per_group.len()).filter(|&g| per_group[g].is_some()).collect();
+                for w in avail.windows(2) {
+                    let (ka, xa) = per_group[w[0]].clone().unwrap();
+                    let (kb, xb) = per_group[w[1]].clone().unwrap();
+                    if ka == kb {
+                        continue;
+                    }
+                    let id = format!("{}/weighted-cancel@{},{}", id0, w[0], w[1]);
+                    let dd = rand_nonzero(&mut rng);
+                    let mut ev2 = ev.clone();
+                    *ev2.get_mut(&ka).unwrap() += dd * xa.inverse().unwrap();
+                    *ev2.get_mut(&kb).unwrap() -= dd * xb.inverse().unwrap();
+                    let out = batch_verdict(ctx, &mut rng, &id, &c, &cs, &qs, &ev2, &b.ps, true, "weighted-cancelling");
+                    ctx.rep.count("ipa/batch-weighted-cancel");
+                    ctx.rep.case(&format!("{} batch weighted-cancel out={:?}", c.desc(), out), Some(format!("ipa-batch/{}/{}/wcancel", c.s, npoly)));
+                }
+            }
             // one proof component replaced inside the batch (true claims): batch = individual = model
             for comp in ["fck", "c", "l", "r"] {
                 let id = format!("{}/comp-{}", id0, comp);
@@ -763,7 +943,7 @@ fn c05(ctx: &mut Ctx) {
 
 fn c04(ctx: &mut Ctx) {
     let n = ctx.n(3, 12);
-    mutation_run(ctx, "C04", "mislabel", &[M::BoundRelabel, M::BoundRelabel, M::BoundDrop, M::ShiftedDrop, M::ShiftedAdd, M::ShiftedSwap, M::Shifted], n, false, false);
+    mutation_run(ctx, "C04", "mislabel", &[M::BoundRelabel, M::BoundRelabel, M::BoundRelabelAbove, M::BoundDrop, M::ShiftedDrop, M::ShiftedAdd, M::ShiftedSwap, M::Shifted], n, false, false);
     // honest use is accepted for every bound d in [deg p, s]
     for &req in degrees(ctx) {
         let s = (req + 1).next_power_of_two() - 1;
